@@ -84,3 +84,48 @@ unit("utf8.split", ["C18"], "units/utf8_bytes.c", entry="h_utf8_split",
      expect_tags=["C18.split.verdict-equals-whole-text-verdict"], timeout=300)
 unit("utf8.init", ["C18"], "units/utf8_step.c", entry="h_utf8_init", enforce="cjet_init_checker",
      functions=["cjet_init_checker"], min_obligations={"postcondition": 1}, timeout=60)
+
+# ------------------------------------------------------------------------------------------
+# C17 hopscotch hash tables
+# ------------------------------------------------------------------------------------------
+HT_KINDS = {"u32": 1, "u64": 2}
+
+
+def ht_units(order, kind, tier):
+    sfx = "%s.o%d" % (kind, order)
+    defs = ["HT_ORDER=%d" % order, "HT_KIND=%d" % HT_KINDS[kind]]
+    common = dict(defines=defs, tier=tier, solver="kissat", unwind=33, kind="proof",
+                  bound="table order %d (all loops have constant bounds <= 32, unwinding assertions on)" % order,
+                  assumes=["hash functions replaced by an uninterpreted function into [0,2^order) (real ones: unit ht.hash)",
+                           "contract enforced by hand-instrumented harness (assume PRE / assert POST), not by --dfcc (timeout)"])
+    for op, fn, tags in (("get", "hashtable_get", ["C17.get.found-iff-present", "C17.get.returns-stored-value", "C17.get.table-unchanged"]),
+                         ("remove", "hashtable_remove", ["C17.remove.success-iff-was-present", "C17.remove.returns-removed-value", "C17.remove.view-is-old-view-minus-key", "C17.remove.inv-preserved", "C17.remove.failure-changes-nothing"]),
+                         ("put", "hashtable_put", ["C17.put.result", "C17.put.refused-only-when-no-slot-in-reach", "C17.put.view-is-old-view-plus-binding", "C17.put.reports-previous-value", "C17.put.inv-preserved"])):
+        for i, tag in enumerate(tags):
+            c2 = dict(common)
+            c2["defines"] = defs + ["HT_ONLY=%d" % (i + 1)]
+            if op == "put" and order <= 6:
+                # add range 2^(order-1) <= hop range 32: displacement (find_closer_entry) must be unreachable;
+                # its body is replaced by assert(false) so that reaching it fails an obligation
+                c2["goto_instrument_args"] = ["--generate-function-body", "find_closer_entry_VT",
+                                              "--generate-function-body-options", "assert-false-assume-false"]
+            unit("ht.%s.%s.%d" % (op, sfx, i + 1), ["C17", "C06"], "units/ht.c", entry="h_ht_" + op,
+                 functions=["%s_<name> (order %d, %s keys)" % (fn, order, kind)], expect_tags=[tag], timeout=600, **c2)
+
+
+ht_units(2, "u32", "quick")
+ht_units(3, "u32", "quick")
+
+# ------------------------------------------------------------------------------------------
+# C16 fetch matchers
+# ------------------------------------------------------------------------------------------
+MATCH_FNS = ["equals_match", "contains_match", "startswith_match", "endswith_match", "equalsnot_match", "containsallof_match"]
+for _w in range(12):
+    _fn = MATCH_FNS[_w % 6] + ("_ignore_case" if _w >= 6 else "")
+    unit("match.fn.%s" % _fn, ["C16", "C06"], "units/match_fn.c", entry="h_match_fn", kind="bounded",
+         bound="path <= 4 bytes, operands <= 3 bytes, containsAllOf <= 2 operands, all byte values (thorough: 6/4)",
+         unwind=8, defines=["MS_WHICH=%d" % _w], defines_thorough=["MS_PLEN=6", "MS_OLEN=4"], unwind_thorough=10, functions=[_fn],
+         expect_tags=["C16.match.function-equals-reference-predicate"], timeout=300, solver="cadical",
+         assumes=["libc: CBMC built-in strcmp/strncmp/strlen, assumed models of strstr/strcasestr/strcasecmp/strncasecmp (C locale)"])
+unit("match.table", ["C16"], "units/match_fn.c", entry="h_match_table", unwind=16, functions=["matchers[] (rule-name table)"],
+     expect_tags=["C16.match.table-names", "C16.match.table-functions"], timeout=120)
